@@ -79,4 +79,3 @@ package resp
 //@   props C03
 //@   requires h != nil && r != nil
 //@   modifies *, r.pos, r.avail, r.failed
-
